@@ -36,6 +36,28 @@ pub fn replay(cases: &str, verdicts: &str) {
                 let ok1 = match (&g, &g1) { (Some(a), Some(b)) => b.len() == 1 && b[0] == a[0], _ => false };
                 v.check(ok1, "AR::predict horizon-prefix", &format!("p{}", phi.len()), &c, json!(g1.as_ref().map(|g| fjs(g))));
             }
+            // long horizons (Inv_Semigroup: forecasting H steps = forecasting k steps, appending them to the history and forecasting the
+            // remaining H - k), replayed with persistent coefficients of the case's order - root 255/256, or a slowly damped cycle of
+            // modulus 0.998 - so that forecast 700 is still far from the mean
+            {
+                let p = phi.len();
+                let mut co = vec![0.0; p];
+                if p == 1 { co[0] = 255.0 / 256.0; } else { co[0] = 2.0 * 0.998 * (0.05f64).cos(); co[1] = -0.998 * 0.998; }
+                let mut rc = co.clone(); rc.reverse();
+                let ar = AR { p, coeffs: rc, intercept: mu };
+                let hist: Vec<f64> = data.iter().enumerate().map(|(i, t)| t * 8.0 + 40.0 + i as f64).collect();
+                let big = 700usize;
+                if let Some(f) = guard(|| ar.predict(&hist, big)) {
+                    let scale = f.iter().chain(hist.iter()).fold(1.0f64, |m, t| m.max((t - mu).abs()));
+                    let far = (f[big - 1] - mu).abs() >= 1e-3 * scale;
+                    for k in [1usize, 200, 255, 256, 257, 300, 512, 699] {
+                        let ext: Vec<f64> = hist.iter().chain(f[..k].iter()).cloned().collect();
+                        let g = guard(|| ar.predict(&ext, big - k));
+                        let ok = f.len() == big && g.as_ref().map(|g| g.len() == big - k && g.iter().zip(&f[k..]).all(|(a, b)| (a - b).abs() <= 1e-9 * scale)).unwrap_or(false);
+                        v.check(ok && far, "AR::predict long-horizon semigroup", &format!("p{} split{}", if p == 1 { "1" } else { ">1" }, if k < 256 { "<256" } else if k == 256 { "=256" } else { ">256" }), &json!({"case": c, "split": k, "still_far_from_mean": far}), json!(g.as_ref().map(|g| fjs(&g[..g.len().min(3)]))));
+                    }
+                } else { v.check(false, "AR::predict long-horizon semigroup", "panic", &c, json!("panic")); }
+            }
             return;
         }
         let x = f64s(&c["x"]);
@@ -185,6 +207,25 @@ pub fn record(seed: u64, nev: usize, out: &str) {
                 }
             }
             None => t.emit(json!({"kind": "yw", "p": p, "n": n, "offset_class": 0, "out": "panic", "resid_eps_log2": 0, "intercept_dev_eps_log2": 0})),
+        }
+    }
+    // long clean trends (lag-one autocorrelation beyond 0.999): the fitted coefficients still solve the Yule-Walker equations
+    for (n, p) in [(3500usize, 1usize), (3500, 2), (6000, 3), (4200, 1), (9000, 2)] {
+        let x: Vec<f64> = (0..n).map(|i| 0.01 * i as f64 + 0.05 * lcg_normal(&mut rng)).collect();
+        let m = x.iter().sum::<f64>() / n as f64;
+        let dev: Vec<f64> = x.iter().map(|v| v - m).collect();
+        let c0: f64 = dev.iter().map(|d| d * d).sum::<f64>();
+        let rho = |k: usize| -> f64 { (k..n).map(|i| dev[i] * dev[i - k]).sum::<f64>() / c0 };
+        match guard(|| { let mut ar = AR::new(p); ar.fit(&x); (fit_coeffs(&ar), ar.intercept) }) {
+            Some((co, ic)) => {
+                let resid = (1..=p).map(|i| ((0..p).map(|j| co[j] * rho((i as i64 - 1 - j as i64).unsigned_abs() as usize)).sum::<f64>() - rho(i)).abs()).fold(0.0, f64::max);
+                let scaled = (resid / f64::EPSILON).min(1e15).ceil() as i64;
+                let spread = dev.iter().fold(0.0f64, |a, d| a.max(d.abs()));
+                let ic_dev = ((ic - m).abs() / (f64::EPSILON * (m.abs() + spread))).min(1e15).ceil() as i64;
+                t.emit(json!({"kind": "yw", "p": p, "n": n, "offset_class": 0, "series": "long-trend", "out": "ok",
+                              "resid_eps_log2": if scaled <= 1 { 0 } else { (scaled as f64).log2().ceil() as i64 }, "intercept_dev_eps_log2": if ic_dev <= 1 { 0 } else { (ic_dev as f64).log2().ceil() as i64 }}));
+            }
+            None => t.emit(json!({"kind": "yw", "p": p, "n": n, "offset_class": 0, "series": "long-trend", "out": "panic", "resid_eps_log2": 0, "intercept_dev_eps_log2": 0})),
         }
     }
     let _ = Value::Null;
